@@ -464,6 +464,123 @@ def check_parsers(env, res, n):
                               signature={'part': 'parser', 'parser': 'json', 'clause': 'shape'}, impl=real)
 
 
+
+# --------------------------------------------------------------------------
+# 2b. parsers are functions of the argument list: SEQUENCES in one process
+# --------------------------------------------------------------------------
+
+MUTATIONS = ['nested-fill', 'nested-clear', 'top-add', 'top-clear', 'top-replace-values', 'all']
+
+
+def want_parser(p, a):
+    """{'ok': …} | {'err': {'name'}} from the property text (ref_parser; json: the stdlib loader)."""
+    short = p.rsplit('.', 1)[1]
+    if short != 'json':
+        w = ref_parser(p, a)
+        return {'ok': None if w is None else common.enc(w)}
+    if not a:
+        return {'ok': None}
+    try:
+        loaded = json.loads(' '.join(a))
+    except ValueError:
+        return {'err': {'name': 'json.decoder.JSONDecodeError'}}
+    return {'ok': common.enc(loaded)} if isinstance(loaded, dict) else {'err': {'name': 'TypeError'}}
+
+
+def gen_parser_seq(rng, parser=None):
+    """call - mutate the returned containers in place - call again with the SAME argument list (and other lists,
+    other parsers, in between)."""
+    p = parser or rng.choice(PARSERS)
+    pool = [None, [], ['a=1', 'b=2'], ['a=1'], ['x', 'y'], ['k=v', 'bare'], ['{"a":', '{"b":', '[1]}}']]
+    ops, ncalls = [], 0
+    for _ in range(rng.randint(2, 5)):
+        a = rng.choice(pool[:2] if rng.random() < 0.5 else pool)
+        ops.append(['call', p if rng.random() < 0.85 else rng.choice(PARSERS), a])
+        ncalls += 1
+        if rng.random() < 0.85:
+            ops.append(['mutate', rng.randrange(ncalls), rng.choice(MUTATIONS)])
+    return ops
+
+
+def check_parser_sequences(env, res, n):
+    drv = env.driver
+    rng = env.rng
+    seqs = []
+    for p in PARSERS:
+        for a in (None, [], ['a=1', 'b=2'], ['x']):
+            for how in MUTATIONS:
+                # parse, mutate what came back, parse again with the same list: the second result is the first one's value
+                seqs.append([['call', p, a], ['mutate', 0, how], ['call', p, a]])
+        seqs.append([['call', p, None], ['mutate', 0, 'all'], ['call', p, []], ['mutate', 1, 'all'], ['call', p, None], ['call', p, ['k=v']]])
+    seqs += [gen_parser_seq(rng) for _ in range(n)]
+    reqs = [('cli.parsecalls', {'ops': [[o[0], o[1], (o[2] or [])] if o[0] == 'call' else ['mutate', o[1], None] for o in ops]})
+            for ops in seqs]
+    models = drv.ask_many(reqs)
+    for ops, m in zip(seqs, models):
+        case = {'kind': 'parser-seq', 'ops': ops}
+        if isinstance(m, common.Reject):
+            res.count('parser-seq:outside-model')
+            continue
+        real = impl.parser_seq_obs(ops)
+        res.case(case, nontrivial=True)
+        res.count('parser-seq')
+        calls = [o for o in ops if o[0] == 'call']
+        for k, (o, rv, mv) in enumerate(zip(calls, real, m)):
+            short = o[1].rsplit('.', 1)[1]
+            mv = {'err': {'name': mv['err']['name']}} if 'err' in mv else {'ok': mv['ok']}
+            want = want_parser(o[1], o[2])
+            if sort_keys(rv) != sort_keys(want):
+                earlier = [i for i, c in enumerate(calls[:k]) if c[1] == o[1]]
+                res.violation(case, f'call {k} of the sequence: {short} parser on {o[2]!r} gives {rv}, a function of the argument '
+                              f'list gives {want} (earlier calls of this parser: {earlier}; their results were rewritten in place '
+                              f'in between - {[x for x in ops if x[0] == "mutate"]})',
+                              signature={'part': 'parser', 'parser': short, 'clause': 'function-of-the-argument-list',
+                                         'args': 'none' if not o[2] else 'some'}, impl=real)
+                break
+            if sort_keys(mv) != sort_keys(rv):
+                res.mismatch(case, m, real)
+                break
+
+
+def check_api_sequences(env, res, n):
+    """Two or three `pipelinerunner.run()` calls in one process on pipelines with the same context parser; the first step of each
+    run fills / empties the containers the parser put into the context. Every run must start from what the parser gives for ITS arguments."""
+    rng = env.rng
+    drv = env.driver
+    combos = []
+    for p in PARSERS:
+        for how in ('fill', 'clear'):
+            for args in (None, [], ['a=1', 'b=2']):
+                combos.append((p, how, [{'args_in': args, 'dict_in': None, 'parse_args': True}] * 2))
+        combos.append((p, 'fill', [{'args_in': None, 'dict_in': {'outdir': 'x'}, 'parse_args': True},
+                                   {'args_in': [], 'dict_in': {'outdir': 'x'}, 'parse_args': True},
+                                   {'args_in': ['k=v'], 'dict_in': None, 'parse_args': None}]))
+    if len(combos) > n:
+        keep = [c for c in combos if c[1] == 'fill' and not c[2][0]['args_in']]
+        combos = keep + rng.sample([c for c in combos if c not in keep], max(0, n - len(keep)))
+    for p, how, runs in combos:
+        case = {'kind': 'api-seq', 'parser': p, 'how': how, 'runs': runs}
+        real = impl.api_two_runs_obs(p, runs, how)
+        res.case(case, nontrivial=True)
+        res.count('api-seq:' + p.rsplit('.', 1)[1])
+        for k, (r, rv) in enumerate(zip(runs, real)):
+            want = want_parser(p, r['args_in'])
+            if 'ok' in want:
+                ctx = dict(r['dict_in'] or {})
+                ctx.update(common.dec(want['ok']) or {})
+                want = {'ok': common.enc(ctx)}
+            m = drv.ask('cli.initctx', parser=p, parse_args=r['parse_args'], args_in=r['args_in'],
+                        dict_in=None if r['dict_in'] is None else common.enc(r['dict_in']))
+            mv = {'err': {'name': m['err']['name']}} if 'err' in m else {'ok': m['ok']}
+            if sort_keys(rv) != sort_keys(want):
+                res.violation(case, f'run {k} in this process ({p} on {r["args_in"]!r}): its first step saw {rv}, the arguments mean '
+                              f'{want} - the earlier run(s) wrote into the containers the parser handed out',
+                              signature={'part': 'api', 'parser': p.rsplit('.', 1)[1], 'clause': 'function-of-the-argument-list'}, impl=real)
+                break
+            if sort_keys(mv) != sort_keys(rv):
+                res.mismatch(case, mv, rv)
+                break
+
 # --------------------------------------------------------------------------
 # 3. parse_input table and the initial context through the API
 # --------------------------------------------------------------------------
@@ -1346,6 +1463,217 @@ def judge_shortcut(env, res, c, o):
         res.mismatch(case, mv, rv)
 
 
+
+# --------------------------------------------------------------------------
+# 5c. one command, two parser runs: a parent pipeline pypes a child with skipParse False (same parser)
+# --------------------------------------------------------------------------
+
+POLLUTE = ("from collections.abc import MutableMapping\n"
+           "for v in list(context.values()):\n"
+           "    if isinstance(v, MutableMapping):\n"
+           "        v['polluted'] = 'by the parent'\n"
+           "        v['a'] = 'overwritten'\n"
+           "    elif isinstance(v, list):\n"
+           "        v.append('polluted')\n")
+
+
+def seqrun_cases(env, full):
+    """`pypyr parent <args>`: the parent (context_parser P) fills the containers P gave it in place (a py step; with the dict
+    parser also the documented `pypyr.steps.default`), then pypes a child that uses P too, with skipParse False and a fresh
+    context: the child's first step must see what P gives for the CHILD's argument list."""
+    rng = env.rng
+    C = []
+    arglists = [[], ['a=1', 'b=2'], ['x', 'y z']]
+    combos = [(p, a, ca) for p in PARSERS for a in arglists for ca in arglists]
+    keep = [c for c in combos if not c[1] and not c[2]]
+    rest = [c for c in combos if c not in keep]
+    if not full:
+        rest = rng.sample(rest, 6)
+    for p, a, ca in keep + rest:
+        if p.endswith('json'):
+            a = ['{"argDict":', '{"a":', '"b"}}'] if a else []
+            ca = ['{"argDict":', '{"c":', '"d"},', '"l":', '[1]}'] if ca else []
+        pype = {'name': 'child', 'skipParse': False, 'useParentContext': False}
+        if ca:
+            # the pype input is a formatting expression: literal braces are doubled; shlex.split undoes the quoting
+            pype['pipeArg'] = ' '.join("'" + x + "'" if (' ' in x or '"' in x) else x for x in ca).replace('{', '{{').replace('}', '}}')
+        steps = [probe_step('parent'), {'name': 'pypyr.steps.py', 'in': {'pycode': POLLUTE}}]
+        if p.endswith('.dict'):
+            steps.append({'name': 'pypyr.steps.default', 'in': {'defaults': {'argDict': {'env': 'dev', 'region': 'eu'}}}})
+        steps.append({'name': 'pypyr.steps.pype', 'in': {'pype': pype}})
+        files = {'work/parent.yaml': json.dumps({'context_parser': p, 'steps': steps}, indent=1),
+                 'work/child.yaml': json.dumps({'context_parser': p, 'steps': [probe_step('child')]}, indent=1)}
+        C.append({'kind': 'proc', 'family': 'seqrun', 'variant': p.rsplit('.', 1)[1], 'parser': p, 'files': files,
+                  'argv': ['parent'] + a, 'ctx_args': a, 'child_args': ca, 'sigint': False})
+    return C
+
+
+def judge_seqrun(env, res, c, o):
+    case = dict(c)
+    res.case(case, nontrivial=True)
+    res.count('proc:seqrun:' + c['variant'])
+    res.count('proc-status:' + str(o['status']))
+    brief = {'status': o['status'], 'stderr_tail': o['stderr'][-500:], 'probe': o['probe']}
+    sig = {'part': 'process', 'term': 'seqrun', 'parser': c['variant']}
+    seen = {p['g']: p.get('ctx') for p in o['probe']}
+    wants = {}
+    for g, a in (('parent', c['ctx_args']), ('child', c['child_args'])):
+        w = want_parser(c['parser'], a)
+        wants[g] = None if 'err' in w else (common.dec(w['ok']) or {})
+    if any(w is None for w in wants.values()):
+        return
+    if o['status'] != 0 or set(seen) != {'parent', 'child'}:
+        res.violation(case, f"parent + child with the same parser: exit status {o['status']}, steps that reported: {sorted(seen)}",
+                      signature={**sig, 'clause': 'status-0'}, impl=brief)
+        return
+    for g in ('parent', 'child'):
+        if seen[g] != wants[g]:
+            res.violation(case, f"the {g} pipeline ({c['parser']} on {c['ctx_args'] if g == 'parent' else c['child_args']!r}) starts from "
+                          f"{seen[g]}, its argument list means {wants[g]}" +
+                          (' - what the parent wrote into ITS parser result shows up in the child\'s' if g == 'child' else ''),
+                          signature={**sig, 'clause': 'function-of-the-argument-list', 'who': g}, impl=brief)
+            return
+    # model: two calls with a mutation in between
+    m = env.driver.ask('cli.parsecalls', ops=[['call', c['parser'], c['ctx_args']], ['mutate', 0, None], ['call', c['parser'], c['child_args']]])
+    mv = [common.dec(x['ok']) or {} for x in m]
+    if mv != [seen['parent'], seen['child']]:
+        res.mismatch(case, mv, [seen['parent'], seen['child']])
+
+
+# --------------------------------------------------------------------------
+# 5d. the context parser raises: which failure handler runs, how the command ends
+# --------------------------------------------------------------------------
+
+FAILPARSER = {'work/failparser.py': "class MyParserError(Exception):\n    pass\n\n\ndef get_parsed_context(args):\n"
+                                   "    raise MyParserError('parser says no: ' + ' '.join(args or []))\n"}
+HANDLER_TAILS = {'completed': [], 'stop': ['pypyr.steps.stop'], 'stopPipeline': ['pypyr.steps.stoppipeline'],
+                 'stopStepGroup': ['pypyr.steps.stopstepgroup'], 'fails-too': None}
+GROUP_OPTS = [{}, {'groups': ['g1']}, {'success': 's1'}, {'groups': ['g1'], 'success': 's1'}, {'groups': ['g1', 'steps']},
+              {'groups': ['g1'], 'failure': 'f1'}, {'failure': 'f1'}, {'groups': ['g1'], 'failure': 'on_failure'},
+              {'success': 's1', 'failure': 'f1'}, {'groups': ['g1'], 'failure': 'nosuch'}, {'success': 'on_success'}]
+
+
+def parsefail_cases(env, full):
+    """A context parser that raises on the given arguments x --groups/--success/--failure in every combination x pipelines whose
+    on_failure / f1 groups end in every way a handler can end. Through the command line and through pipelinerunner.run()."""
+    rng = env.rng
+    C = []
+    parsers = [('pypyr.parser.json', ['{"env":', '"prod"'], 'JSONDecodeError'), ('pypyr.parser.json', ['[1,', '2]'], 'TypeError'),
+               ('failparser', ['a', 'b=c'], 'MyParserError'), ('failparser', [], 'MyParserError')]
+    combos = []
+    for pi, (parser, args, ty) in enumerate(parsers):
+        for go in GROUP_OPTS:
+            for of_end in ('stop', 'completed', 'stopPipeline', 'stopStepGroup', 'fails-too', None):
+                for f1_end in ('completed', 'stop', 'stopStepGroup', 'stopPipeline'):
+                    combos.append((parser, args, ty, go, of_end, f1_end))
+    # the rows that tell most: something but --failure given x an on_failure that would stop
+    key = [c for c in combos if c[3] and 'failure' not in c[3] and c[4] in ('stop', 'stopPipeline') and c[5] == 'completed']
+    rest = [c for c in combos if c not in key]
+    if not full:
+        key = [c for c in key if c[0] == 'pypyr.parser.json' and c[2] == 'JSONDecodeError' and c[4] == 'stop'] + rng.sample(key, 4)
+        # every way a handler that RUNS can end, once each (default on_failure; an explicit --failure)
+        directed = [c for c in rest if c[0] == 'failparser' and c[1] and c[5] == 'completed' and c[3] == {} and c[4] is not None]
+        directed += [c for c in rest if c[0] == 'failparser' and c[1] and c[4] == 'stop' and c[3] == {'groups': ['g1'], 'failure': 'f1'}]
+        rest = directed + rng.sample([c for c in rest if c not in directed], 10)
+    elif len(rest) > 200:
+        rest = rng.sample(rest, 200)
+    for k, (parser, args, ty, go, of_end, f1_end) in enumerate(key + rest):
+        def grp(name, end):
+            tail = HANDLER_TAILS[end]
+            if tail is None:
+                tail = [raise_step('OSError', 'handler broke')]
+            return [probe_step(name)] + tail + ([probe_step(name + '-after')] if end == 'completed' else [NEVER])
+        body = {'context_parser': parser, 'steps': [probe_step('steps')], 'g1': [probe_step('g1')], 's1': [probe_step('s1')],
+                'on_success': [probe_step('on_success')], 'f1': grp('f1', f1_end)}
+        if of_end is not None:
+            body['on_failure'] = grp('on_failure', of_end)
+        ends = {'f1': f1_end, **({'on_failure': of_end} if of_end is not None else {})}
+        opts = []
+        for name, flag in (('groups', '--groups'), ('success', '--success'), ('failure', '--failure')):
+            if name in go:
+                opts.append([name, go[name], rng.choice(FLAGS[name]), False])
+        rng.shuffle(opts)
+        optv = [x for o in opts for x in render_opt(o)]
+        argv = (['pipe'] + args + optv) if not (opts and opens_groups(opts[-1]) and False) else None
+        if args and any(a.startswith('-') for a in args):
+            continue
+        via = 'api' if k % 3 == 2 else 'cli'
+        c = {'kind': 'proc', 'family': 'parsefail', 'variant': f'{ty}/{"+".join(sorted(go)) or "none"}', 'via': via,
+             'files': {'work/pipe.yaml': json.dumps(body, indent=1), **(FAILPARSER if parser == 'failparser' else {})},
+             'argv': argv, 'parser': parser, 'ctx_args': args, 'error_type': ty, 'group_args': go, 'handler_ends': ends, 'sigint': False,
+             'api': {'args_in': args, 'groups': go.get('groups'), 'success_group': go.get('success'), 'failure_group': go.get('failure')}}
+        C.append(c)
+    return C
+
+
+def expected_parser_msg(c):
+    if c['parser'] == 'failparser':
+        return 'parser says no: ' + ' '.join(c['ctx_args'])
+    if c['error_type'] == 'JSONDecodeError':
+        try:
+            json.loads(' '.join(c['ctx_args']))
+        except ValueError as e:
+            return str(e)
+    return None
+
+
+def judge_parsefail(env, res, c, o):
+    """o: {'status', 'stderr', 'probe'} (command line) or {'raised', 'probe'} (API)."""
+    case = dict(c)
+    res.case(case, nontrivial=True)
+    go = c['group_args']
+    res.count(f"proc:parsefail:{c['via']}:{'+'.join(sorted(go)) or 'none'}")
+    trace = [p['g'] for p in o['probe']]
+    # ---- what the command line means (documented: groups/success/failure given => exactly those; on_failure is the
+    #      default handler only of a run that gives none of the three), from the property text
+    handler = go.get('failure') if go else 'on_failure'
+    end = c['handler_ends'].get(handler) if handler else None
+    if end is None:
+        want_trace, want_status = [], 255
+    else:
+        want_trace = [handler] + ([handler + '-after'] if end == 'completed' else [])
+        want_status = 0 if end in ('stop', 'stopPipeline') else 255
+    ty, msg = c['error_type'], expected_parser_msg(c)
+    if c['via'] == 'cli':
+        got_status = o['status']
+        shown = o['stderr']
+        brief = {'status': o['status'], 'stderr_tail': o['stderr'][-400:], 'trace': trace}
+        res.count('proc-status:' + str(o['status']))
+    else:
+        r = o['raised']
+        got_status = 0 if r is None else 255
+        shown = '' if r is None else f"\033[91m{r['ty']}: {r['msg']}"
+        brief = {'raised': r, 'trace': trace}
+    sig = {'part': 'process', 'term': 'parser-error', 'via': c['via'], 'given': '+'.join(sorted(go)) or 'none'}
+    what = (f"the context parser raises {ty}; the run gives {go or 'none of --groups/--success/--failure'}: the failure handler is "
+            f"{handler!r}" + (f" (ends: {end})" if end else ' (no such handler: nothing to run)'))
+    if trace != want_trace:
+        res.violation(case, f"{what}; groups that ran: {trace}, expected {want_trace}",
+                      signature={**sig, 'clause': 'groups-success-failure-passthrough'}, impl=brief)
+    elif got_status != want_status:
+        res.violation(case, f"{what}; " + (f"exit status {got_status}" if c['via'] == 'cli' else f"run() {'returned' if got_status == 0 else 'raised'}") +
+                      f", expected {want_status}", signature={**sig, 'clause': f'status-{want_status}'}, impl=brief)
+    elif want_status == 255:
+        text = f"\033[91m{ty}: " + (msg or '')
+        if text not in shown:
+            res.violation(case, f"{what}; the parser's error is not what is reported: lacks {text!r}",
+                          signature={**sig, 'clause': 'stderr-type-message'}, impl=brief)
+    # ---- model
+    body = [[g, 'completed' if e == 'fails-too' else e] for g, e in c['handler_ends'].items()]
+    m = env.driver.ask('cli.parserfail', groups=go.get('groups'), success_group=go.get('success'), failure_group=go.get('failure'),
+                       body=body, raised={'kind': 'error', 'ty': ty, 'msg': msg or ''})
+    mtrace = [g for g in m['ran']] + ([m['ran'][0] + '-after'] if m['ran'] and c['handler_ends'].get(m['ran'][0]) == 'completed' else [])
+    stderr_model = m['stderr'] if msg is not None else m['stderr'].split(': ')[0] + ': '
+    rv = {'trace': trace, 'status': got_status}
+    mv = {'trace': mtrace, 'status': m['status']}
+    if mv != rv or (m['status'] == 255 and stderr_model.strip('\n') .replace('\x1b[0;0m', '') not in shown):
+        res.mismatch(case, {**mv, 'stderr': stderr_model}, brief)
+
+
+def check_api_runs(env, res, cases):
+    for c in cases:
+        judge_parsefail(env, res, c, impl.api_run_obs(c))
+
 # --------------------------------------------------------------------------
 # 5b. "any error escaped": a fault in every phase of the command, real processes
 # --------------------------------------------------------------------------
@@ -1634,6 +1962,10 @@ def check_procs(env, res, cases):
             judge_exit0(env, res, c, o)
         elif c.get('family') == 'shortcut':
             judge_shortcut(env, res, c, o)
+        elif c.get('family') == 'seqrun':
+            judge_seqrun(env, res, c, o)
+        elif c.get('family') == 'parsefail':
+            judge_parsefail(env, res, c, o)
         else:
             judge_proc(env, res, c, o)
 
@@ -1712,11 +2044,16 @@ def run(env, res):
     check_classify(env, res, 300 if q else 6000)
     check_cwd_default(env, res)
     check_parsers(env, res, 1500 if q else 15000)
+    check_parser_sequences(env, res, 300 if q else 5000)
     check_api(env, res, 250 if q else 100000)
+    check_api_sequences(env, res, 24 if q else 1000)
     check_shortcuts(env, res, 500 if q else 12000)
     check_ladders(env, res, 60 if q else 1000)
     check_phase_ladders(env, res, 120 if q else 3000)
+    pf = parsefail_cases(env, full=not q)
+    check_api_runs(env, res, [c for c in pf if c['via'] == 'api'])
     check_procs(env, res, base_cases(env, full=not q) + exit0_cases(env, full=not q) + shortcut_proc_cases(env, full=not q) +
+                seqrun_cases(env, full=not q) + [c for c in pf if c['via'] == 'cli'] +
                 fault_cases(env, full=not q) + proc_cases(env, full=not q))
     order_findings(res)
 
@@ -1727,7 +2064,9 @@ def replay(env, res, case):
         c = c['first_diverging_case']['case']
     k = c.get('kind')
     impl.quiet_logging()
-    if k == 'proc':
+    if k == 'proc' and c.get('via') == 'api':
+        check_api_runs(env, res, [c])
+    elif k == 'proc':
         check_procs(env, res, [c])
     else:
         # in-process parts are cheap and seeded: re-run them all
@@ -1735,7 +2074,9 @@ def replay(env, res, case):
         check_classify(env, res, 100)
         check_cwd_default(env, res)
         check_parsers(env, res, 300)
+        check_parser_sequences(env, res, 100)
         check_api(env, res, 250)
+        check_api_sequences(env, res, 24)
         check_shortcuts(env, res, 300)
         check_ladders(env, res, 60)
         check_phase_ladders(env, res, 120)
